@@ -26,17 +26,48 @@ func vContentExt(kind int, critical bool) AnyExtension {
 	return AnyExtension{OcspNoCheckExtension: &OcspNoCheckExtension{Critical: critical}}
 }
 
+// vEmptyContentExt: the same kinds with the smallest content the
+// configuration format can express (an empty list, an all-default object).
+func vEmptyContentExt(kind int, critical bool) AnyExtension {
+	switch kind {
+	case 1:
+		return AnyExtension{KeyUsage: &KeyUsage{Content: []string{}, Critical: critical}}
+	case 2:
+		return AnyExtension{SubjectAltName: &SubjectAltName{Content: []SubjAltNameComponent{}, Critical: critical}}
+	case 3:
+		return AnyExtension{BasicConstraints: &BasicConstraints{Content: &BasicConstraintsObj{}, Critical: critical}}
+	case 4:
+		return AnyExtension{CertPolicies: &CertPolicies{Content: []CertPolicy{}, Critical: critical}}
+	case 5:
+		return AnyExtension{AuthInfoAccess: &AuthInfoAccess{Content: []SingleAuthInfo{}, Critical: critical}}
+	case 7:
+		return AnyExtension{ExtKeyUsage: &ExtKeyUsage{Content: []string{}, Critical: critical}}
+	case 8:
+		return AnyExtension{AdmissionExtension: &AdmissionExtension{Content: &Admission{Admissions: []SingleAdmission{}}, Critical: critical}}
+	}
+	return vContentExt(kind, critical)
+}
+
 // vhCriticalFlag: C06, "each with the configured critical flag" for the
-// content form of every extension kind.
+// content form of every extension kind, with a small valid content and with
+// the smallest content the format can express (where that generates at all).
 func vhCriticalFlag() {
 	kind := vChoose("kind", 10)
 	crit := vBool("critical")
 	cfg := CertConfig{Subject: "CN=x", SerialNumber: 4711}
-	cfg.Extensions = []AnyExtension{vContentExt(kind, crit)}
+	empty := vChoose("emptyContent", 2) == 1
+	if empty {
+		cfg.Extensions = []AnyExtension{vEmptyContentExt(kind, crit)}
+	} else {
+		cfg.Extensions = []AnyExtension{vContentExt(kind, crit)}
+	}
 	crt, _, err := vGenerate(cfg)
-	vAssert(err == nil, "generation failed for a valid content extension")
+	vAssert(empty || err == nil, "generation failed for a valid content extension")
 	if err != nil {
 		return
+	}
+	if empty {
+		vReach("generated-empty")
 	}
 	vReach("generated")
 	exts := crt.TBSCertificate.Extensions
